@@ -160,6 +160,26 @@ def check_two_parts(first, acc):
             if len(lib.blocks) != len(one.blocks):
                 acc.count("block_count_differs")
                 continue
+            # entries of the FIRST part: a bare field naming a string that only the second part defines holds that string's
+            # content after the second call (the stack runs over the whole library again), as in the one-go parse
+            defined_a = {CAT[i][1] for i in a if CAT[i][0] == "string"}
+            defined_b = {CAT[i][1] for i in b if CAT[i][0] == "string"} - defined_a
+            late = []
+            for pos, i in enumerate(a):
+                c = CAT[i]
+                if c[0].startswith("entry") and pos < len(lib.blocks) and type(lib.blocks[pos]) is Entry and type(one.blocks[pos]) is Entry:
+                    for k, v in c[3]:
+                        if is_bare(v) and v in defined_b:
+                            got_, exp_ = lib.blocks[pos].fields_dict[k].value, one.blocks[pos].fields_dict[k].value
+                            if got_ != exp_:
+                                late.append((c[2], k, v, got_, exp_))
+            if late:
+                acc.violation(
+                    {"oracle": "field_values_after_resolution", "form": "document parsed in two parts", "kind": "reference in the first part to a definition in the second"},
+                    {"case": case, "text": [ta, tb], "observed": late[:3], "expected": "the string's content, as when parsed in one go"},
+                    size=len(a) + len(b),
+                )
+                continue
             view = lambda L: [(x.key, [(f.key, f.value) for f in x.fields], x.parser_metadata.get("ResolveStringReferences")) for x in L.blocks[len(a) :] if type(x) is Entry]
             acc.step(("two_parts", a, b), "parse", repr(view(lib)))
             if view(lib) != view(one):
